@@ -160,6 +160,8 @@ def np_qr(ex, st, node, args, kw):
         Qs = SArr((p, k), kd, fresh_nz('nzQs'), val=fresh_val('Qs'), origin=('lapack', info))
         Rs = SArr((k, r), kd, fresh_nz('nzRs'), val=fresh_val('Rs'), origin=('lapack', info))
         info.update(Q=Qs, R=Rs)
+        a_, b_ = z3.Ints('a_ b_')
+        st.pc += [z3.ForAll([a_, b_], z3.Implies(Qs.val(a_, b_) != 0, Qs.nz(a_, b_))), z3.ForAll([a_, b_], z3.Implies(Rs.val(a_, b_) != 0, Rs.nz(a_, b_)))]
         return (Qs, Rs)
     return (SArr((p, k), kd, fresh_nz('nzQs')), SArr((k, r), kd, fresh_nz('nzRs')))
 
